@@ -123,12 +123,28 @@ def bins_flat(b):
     return out
 
 
-def sev_cfg_tokens(f):
+DOC_DEFAULTS = {"NS_ret": 0.1, "BH_ret_int": 1.0, "BH_ret_dyn": 1.0, "Nmin": 0.1, "md": 1.2, "tcc": 0.0}
+
+
+def msto_row(feh):
+    """the lifetime coefficients of the tabulated metallicity nearest to FeH (the documented rule)"""
+    return MSTO[int(np.argmin(np.abs(MSTO[:, 0] - feh))), 1:]
+
+
+def sev_cfg_tokens(f, cfg=None):
+    """what the model needs, taken from the *configuration* (retention fractions, metallicity) and from sub-objects whose
+    own correctness is another property's business (bins: C13, IFMR: C09/C10) — never from derived private attributes
+    of the object under test"""
     from common import h, hl
-    a0, a1, a2 = map(float, f._tms_constants)
+    cfg = cfg or getattr(f, "_cfg", None)
+    kw = (cfg or {}).get("kw", {})
+    feh = cfg["FeH"] if cfg else f.FeH
+    a0, a1, a2 = map(float, msto_row(feh))
     mb = f.massbins
-    return (f"{hl(bins_flat(mb.bins.MS))} {hl(list(map(float, f.tms_u)))} {h(a0)} {h(a1)} {h(a2)} {h(f.Nmin)} "
-            f"{h(f._frem['WD'])} {h(f._frem['NS'])} {h(f._frem['BH'])} "
+    frem = {"WD": 1.0, "NS": kw.get("NS_ret", DOC_DEFAULTS["NS_ret"]), "BH": kw.get("BH_ret_int", DOC_DEFAULTS["BH_ret_int"])}
+    tms_u = [a0 * math.exp(a1 * float(u) ** a2) for u in mb.bins.MS.upper]
+    return (f"{hl(bins_flat(mb.bins.MS))} {hl(tms_u)} {h(a0)} {h(a1)} {h(a2)} {h(DOC_DEFAULTS['Nmin'])} "
+            f"{h(frem['WD'])} {h(frem['NS'])} {h(frem['BH'])} "
             f"{hl(bins_flat(mb.bins.WD))} {hl(bins_flat(mb.bins.NS))} {hl(bins_flat(mb.bins.BH))} {ifmr_tokens(f.IFMR)}")
 
 
